@@ -29,7 +29,8 @@ def _as_cond(x):
 
 
 def mk_bool(c):
-    return c if isinstance(c, bool) else SBool(c)
+    # always wrapped: object arrays of bits must never contain Python bools (~True == -2)
+    return SBool(c)
 
 
 class SBool:
@@ -48,7 +49,12 @@ class SBool:
         return SBool(('z3', e))
 
     def __bool__(self):
+        if isinstance(self.c, bool):
+            return self.c
         return _ctx.cur().decide(self.c)
+
+    def is_const(self):
+        return isinstance(self.c, bool)
 
     def __invert__(self):
         return mk_bool(c_not(self.c))
@@ -95,7 +101,14 @@ class SBool:
     def __hash__(self):
         return hash(bool(self))
 
+    def __int__(self):
+        return 1 if bool(self) else 0
+
+    __index__ = __int__
+
     def to_z3(self):
+        if isinstance(self.c, bool):
+            return z3.BoolVal(self.c)
         return _ctx.cur().enc.cond(self.c)
 
     def to_sint(self):
